@@ -3,7 +3,7 @@ import time
 
 from . import common, vfamily
 
-BUDGET_S = {'quick': 480, 'thorough': common.THOROUGH_S}
+BUDGET_S = {'quick': int(common.QUICK_S * 480 / 330), 'thorough': common.THOROUGH_S}
 
 ASSUMPTIONS = [
     'CPython 3.12.1 / Unicode 15.0.0 character tables (taken from the running interpreter)',
